@@ -214,7 +214,7 @@ package engine
 //@   ensures[C17] @length old(idle(en)) && len(input) > 255 ==> result1 != nil && sessionKept(en)
 //@   ensures[C17] @firstlength !old(en.initd) && len(input) > 255 ==> result1 != nil && count(extcalls) == old(count(extcalls))
 // input that does not match any accepted format is refused before anything else happens, on every request
-//@   ensures[C17] @refusedformat len(input) > 0 && !vm.inputOk(str(input)) ==> result1 != nil && count(extcalls) == old(count(extcalls)) && count(codegets) == old(count(codegets))
+//@   ensures[C17] @refusedformat len(input) > 0 && !vm.inputOk(old(str(input))) ==> result1 != nil && count(extcalls) == old(count(extcalls)) && count(codegets) == old(count(codegets))
 //@     && en.initd == old(en.initd)
 //@   ensures[C17] @firstformat !old(en.initd) && count(rejected) != old(count(rejected)) ==> result1 != nil && count(extcalls) == old(count(extcalls))
 
